@@ -45,7 +45,8 @@ REQUIRED_PROBES = ['n_%d' % k for k in range(2, 9)] + [
     'duplicate_signature_publication', 'partition_healed', 'with_refund_keys',
     'refund_after_timeout', 'refund_before_timeout', 'cascade_completed',
     'corrupt_adapter_rejected', 'corrupt_publication_rejected', 'view_corrupted_probe',
-    'same_seed_other_length', 'seedless_setup', 'partial_refund_keys']
+    'same_seed_other_length', 'seedless_setup', 'partial_refund_keys',
+    'sibling_seed_beyond_32_bytes']
 RTO = 400           # ms, retransmission timeout of the party stubs
 BASE = 20           # ms, base one-way latency
 HORIZON = 120_000   # ms of simulated time per run at most
@@ -77,6 +78,15 @@ def gen_plan(run_seed, idx, tier):
                        'sigfields': [{'sigfield%d' % k: rng.bytes(rng.choice([0, 1, 4, 32, 256, 480])).hex()
                                       for k in rng.sample(range(1, 9), rng.rng(1, 2))}
                                      for _ in range(8)]})
+    if len(chains) == 2 and rng.chance(1, 2):
+        # two payments whose seeds share a long prefix (master secret || payment id):
+        # different seeds, different chains -- nothing of one may open the other
+        base = rng.bytes(rng.choice([32, 32, 40]))
+        chains[0]['seed'] = (base + rng.bytes(rng.choice([1, 8]))).hex()
+        chains[1]['seed'] = (base + rng.bytes(rng.choice([1, 8, 9]))).hex()
+        if chains[0]['seed'] == chains[1]['seed']:
+            chains[1]['seed'] += '00'
+        chains[0]['shared_prefix'] = chains[1]['shared_prefix'] = True
     if len(chains) == 1 and rng.chance(1, 5):
         # the same seed is used again for a route of another length (a wallet
         # that re-plans a payment): setup must be a function of (seed, n) only
@@ -261,6 +271,20 @@ class Chain:
         ok = ok and tuple(self.views[self.n][0]) == (self.Y[self.n - 1], 0, 0)
         run.check('A1_setup_algebra', ok, 'C18/setup/tweak_points_are_not_prefix_sums_or_key_wrong',
                   detail={'n': self.n})
+        if seed:
+            # another seed is another chain, however similar: a seed that extends this
+            # one, and one that differs from it only beyond its 32nd byte
+            sibs = [seed + b'\x00', seed + b'x' * 33]
+            if len(seed) > 32:
+                sibs.append(seed[:-1] + bytes([seed[-1] ^ 1]))
+                run.probe('sibling_seed_beyond_32_bytes')
+            for sb in sibs:
+                other = real('AMHL.setup', AMHL.setup, self.n, sb)
+                okey = AMHL.scalar_sum(*other[0])
+                run.check('A1_other_seed_other_chain',
+                          other[0][0] != self.y[0] and other[1][-1] != self.Y[-1] and
+                          AMHL.verify_lock_key(self.hops[-1][2], okey) is False,
+                          'C18/setup/another_seed_yields_the_same_secrets', detail={'n': self.n})
         # a wrong key must not verify
         bad = int_to_scalar(scalar_to_int(self.key) + 1)
         run.check('A1_verify_lock_key_rejects', AMHL.verify_lock_key(self.hops[-1][2], bad) is False,
